@@ -117,6 +117,9 @@ def generate_anomalous_data(
 
     means = [np.asarray(mean).reshape(-1) for mean in means]
     variances = [np.asarray(variance).reshape(-1) for variance in variances]
+    if len(means) == 0 or len(variances) == 0:
+        raise ValueError("Number of anomalies, means and variances must be the same.")
+    p = len(means[0])
 
     if len(means) == 1:
         means = means * len(anomalies)
@@ -132,7 +135,6 @@ def generate_anomalous_data(
     if any([anomaly[0] < 0 or anomaly[1] > n for anomaly in anomalies]):
         raise ValueError("Anomalies must be within the range of the data.")
 
-    p = len(means[0])
     x = multivariate_normal.rvs(np.zeros(p), np.eye(p), n, random_state)
     x = np.reshape(x, (n, p))
     for anomaly, mean, variance in zip(anomalies, means, variances):
